@@ -277,6 +277,17 @@ def scripts(tier, seed, scale=1):
             lines.append(("dec append " + gen.hexs(x[cut:])) if r.random() < 0.6 else ("dec seg " + seg(r.randrange(16), x[cut:])))
         lines += [r.choice(["dec run", "dec peek"]), "dec run", "dec run"]
         out.append(("st:%s:%d" % (codec, k), lines))
+    # reset (dec(state, 0, 0)) with a delivered message still waiting, between two frames, and inside a frame;
+    # then the following frames on the same state
+    for codec in DECODERS:
+        for k, (m1, m2) in enumerate([([0x41, 0x42], [0x43, 0x44]), ([0x41], [0x42, 0, 0, 0x43]), ([0x31, 0x32, 0x33], [0x34]), ([], [0x35, 0x36])]):
+            f1, f2, f3 = ref_encode(codec, m1), ref_encode(codec, m2), ref_encode(codec, [0x7a])
+            for head in (0, 18):
+                pad = [0xdd] * head
+                new = "dec new %s %s" % (codec, seg(k + head, pad + f1 + f2 + f3))
+                st = ["dec state 0 %d 0 0 -1" % head] if head else []
+                out.append(("rst:%s:%d:%d" % (codec, k, head), [new] + st + ["dec run", "dec size 0", "dec run", "dec run", "dec size 0", "dec size 0", "dec run", "dec run"]))
+                out.append(("rst2:%s:%d:%d" % (codec, k, head), [new] + st + ["dec size 0", "dec run", "dec run", "dec size 0", "dec run", "dec run"]))
     # command text: a preview (peek) that finds the end of a message in progress
     for k, m in enumerate([[0x68, 0x69], [0x61], [0x61, 0x62, 0x63, 0x64, 0x65]]):
         for cut in range(len(m) + 1):
@@ -430,6 +441,15 @@ class _DQF:
                                                                      "dq peek 4", "dq recv", "dq peek 4", "dq msg", "dq recv", "dq peek 2"]))
                     out.append(("dqpk2:%s:%d:%d" % (codec, k, off), [new, "dq feed " + gen.hexs(f[:1]), "dq peek 4", "dq recv", "dq feed " + gen.hexs(f[1:] + g), "dq peek 1", "dq peek 3", "dq peek 100", "dq peek 100 nodst",
                                                                       "dq recv", "dq msg"]))
+        # the delivered message handed to the consumer (mpt_message_get, with and without continuation vector) for
+        # every position of the frame relative to the end of the storage
+        for codec in DECODERS + ["command"]:
+            f = [0x41, 0x42, 0] if codec == "command" else ref_encode(codec, [0x41, 0x42])
+            n = 4 if codec == "command" else 2
+            for off in range(17):
+                out.append(("dqget:%s:%d" % (codec, off), ["dq new %s max=16 off=%d align=%d" % (codec, off, off % 16), "dq feed " + gen.hexs(f + f), "dq recv", "dq msg",
+                                                         "dq get 0 %d novec" % n, "dq get 0 %d vec" % n, "dq get 1 %d novec" % (n - 1), "dq get 0 1 novec",
+                                                         "dq get 0 %d novec" % (n + 2), "dq recv", "dq get 0 %d novec" % n, "dq get 0 %d vec" % n]))
         # input queue without a decoder ("final data available" paths of mpt_queue_recv / mpt_queue_peek)
         for k in range((40 if tier == "quick" else 400) * scale):
             mx = r.choice([8, 16, 40])
